@@ -96,6 +96,8 @@ def coq_type(t, top=True):
         s = "option " + coq_type(t[1], False)
     elif t[0] == "tuple":
         s = " * ".join(coq_type(x, False) for x in t[1:])
+    elif t[0] == "set":
+        s = "list " + coq_type(t[1], False)
     elif t[0] in ("dict", "dictc"):
         s = f"list ({coq_type(t[1], False)} * {coq_type(t[2], False)})"
     else:
@@ -211,7 +213,7 @@ mkPiece mkMove mkPos mkSC mkDelta pcolor pkind size ply board wstones wcaps bsto
 color_eqb kind_eqb mtype_eqb reason_eqb zlen zsum upd sq getz updz has_road config mkCfg csize cpieces ccaps fuel fuel'
 mk_position py_tuple2_update py_try py_unpack2 py_unpack3 py_list_repeat py_str_int py_int_str py_isdigit py_isascii
 py_join py_split1 pystr ch pystr_eqb rev concat repeat py_uncons pair_eqb list_eqb py_opt_append
-py_chr pyval VStr VInt py_str_val py_dict_get_default
+py_pop inl inr py_chr pyval VStr VInt py_str_val py_dict_get_default
 py_int_sqrt_float py_tuple2_of_list py_mapM otree oprobs engine transcript sp_config answer Q
 engine_analyze engine_tree_probs child_move child_position py_fdiv_int py_fabs py_fge tr_new py_zeros2 inject_Z py_enumerate py_dict_get_last mv_eqb
 Ok Illegal Crash ret bind embed res_map len py_index py_getitem py_setitem py_bound py_slice truthy_list py_range
@@ -277,6 +279,8 @@ MODULE_ALIASES = ("pieces", "moves", "game", "tak", "encoding")    # tak/__init_
 # result DELTA + no return statement = the function's effect on its dict parameter
 TARGETS = [
     ("pieces", "Color.flip", "flip", [COLOR], COLOR, []),
+    ("pieces", "Kind.is_road", "Kind_is_road", [KIND], BOOL, []),
+    ("pieces", "Piece.is_road", "Piece_is_road", [PIECE], BOOL, []),
     ("moves", "MoveType.is_slide", "is_slide", [MTYPE], BOOL, []),
     ("moves", "MoveType.direction", "direction", [MTYPE], T(INT, INT), []),
     ("moves", "_compute_slides", "_compute_slides", [INT], L(L(INT)), [("ALL_SLIDES", L(L(L(INT))))]),
@@ -285,6 +289,9 @@ TARGETS = [
     ("game", "Position.to_move", "to_move", [POS], COLOR, []),
     ("game", "Position.in_bounds", "in_bounds", [POS, INT, INT], BOOL, []),
     ("game", "Position.__getitem__", "getitem", [POS, T(INT, INT)], L(PIECE), []),
+    ("game", "Position.is_road", "is_road", [POS, INT, INT], BOOL, []),
+    ("game", "Position._walk", "_walk", [POS, L(T(INT, INT)), COLOR, BOOL], BOOL, []),
+    ("game", "Position.has_road", "has_road", [POS], O(COLOR), []),
     ("game", "Position.flat_counts", "flat_counts", [POS], T(INT, INT), []),
     ("game", "Position.flats_winner", "flats_winner", [POS], O(COLOR), []),
     ("game", "Position.winner", "winner", [POS], T(O(COLOR), O(REASON)), []),
@@ -299,6 +306,8 @@ TARGETS = [
 ]
 METHODS = {  # (receiver type, method) -> qualified name
     (COLOR, "flip"): "Color.flip", (MTYPE, "is_slide"): "MoveType.is_slide", (MTYPE, "direction"): "MoveType.direction",
+    (KIND, "is_road"): "Kind.is_road", (PIECE, "is_road"): "Piece.is_road", (POS, "is_road"): "Position.is_road",
+    (POS, "_walk"): "Position._walk", (POS, "has_road"): "Position.has_road",
     (POS, "to_move"): "Position.to_move", (POS, "in_bounds"): "Position.in_bounds",
     (POS, "flat_counts"): "Position.flat_counts", (POS, "flats_winner"): "Position.flats_winner",
     (POS, "winner"): "Position.winner", (POS, "_move_place"): "Position._move_place",
@@ -359,6 +368,8 @@ def tree_pure(t):
         return tree_pure(t[3]) and tree_pure(t[4])
     if k == "catch":
         return False
+    if k == "matchsum":
+        return tree_pure(t[3]) and tree_pure(t[5])
     raise AssertionError(k)
 
 
@@ -376,6 +387,8 @@ def map_tree(t, f, rhs=False):
         return (k, t[1], t[2], map_tree(t[3], f, rhs), map_tree(t[4], f, rhs))
     if k == "catch":
         return (k, map_tree(t[1], f, rhs), t[2], map_tree(t[3], f, rhs))
+    if k == "matchsum":
+        return (k, t[1], t[2], map_tree(t[3], f, rhs), t[4], map_tree(t[5], f, rhs))
     raise AssertionError(k)
 
 
@@ -408,6 +421,8 @@ def purify0(t):
         return (k, t[1], t[2], purify(t[3]), purify(t[4]))
     if k == "catch":
         return (k, purify(t[1]), t[2], purify(t[3]))
+    if k == "matchsum":
+        return (k, t[1], t[2], purify(t[3]), t[4], purify(t[5]))
     raise AssertionError(k)
 
 
@@ -442,6 +457,9 @@ def show(t, ind, mon):
                 f"\n{sp}| None =>\n" + show(t[4], ind + 4, mon) + f"\n{sp}end")
     if k == "catch":
         return (f"{sp}py_try (\n" + show(t[1], ind + 4, True) + f") {t[2]} (\n" + show(t[3], ind + 4, True) + ")")
+    if k == "matchsum":      # the result of a loop that can `return`: inl state = the loop ended, inr v = it returned v
+        return (f"{sp}match {t[1]} with\n{sp}| inl {t[2]} =>\n" + show(t[3], ind + 4, mon) +
+                f"\n{sp}| inr {t[4]} =>\n" + show(t[5], ind + 4, mon) + f"\n{sp}end")
     raise AssertionError(k)
 
 
@@ -1049,6 +1067,9 @@ class Translator:
                 t = app("existsb", app("Z.eqb", x.term), v.term)
             elif x.ty == INT and v.ty == L(INT):
                 t = app("existsb", app("Z.eqb", x.term), v.term)
+            elif isinstance(v.ty, tuple) and v.ty[0] == "set" and known(x.ty):
+                unify(v.ty[1], x.ty, e)
+                t = app("existsb", app(eqb_term(x.ty), x.term), v.term)
             else:
                 fail(e, f"`in` with a {x.ty} on the left and a {v.ty} on the right")
         return V(pre, app("negb", t) if neg else t, BOOL)
@@ -1147,6 +1168,8 @@ class Translator:
                 return V(a.pre, a.term, a.ty, False, True)
             if name in ("any", "all") and len(e.args) == 1:
                 return self.any_all(fn, e, env, name)
+            if name == "set" and not e.args and not e.keywords:
+                return V([], "[]", ("set", None), False, True)      # a set is a list used as a set: `in`, add
             if name == "chr" and len(e.args) == 1 and not e.keywords:
                 a = self.pure(fn, e.args[0], env)
                 if a.ty != INT:
@@ -1284,9 +1307,6 @@ class Translator:
                     return recv
         if isinstance(f, ast.Attribute):
             recv = self.pure(fn, f.value, env)
-            if recv.ty == POS and f.attr == "has_road" and not e.args and not e.keywords:
-                # NOT translated: the road search is the hand-written Road.has_road (C02)
-                return V(recv.pre, app("Road.has_road", recv.term), O(COLOR))
             q = METHODS.get((recv.ty, f.attr))
             if q is None:
                 fail(e, f"method {f.attr} of a {recv.ty}")
@@ -1519,6 +1539,10 @@ class Translator:
 
         def walk(ss):
             for s in ss:
+                for c in ast.walk(s):
+                    if isinstance(c, ast.Call) and isinstance(c.func, ast.Attribute) and c.func.attr == "pop" \
+                            and isinstance(c.func.value, ast.Name) and not c.args:
+                        add(c.func.value.id)              # x = q.pop()
                 for c in ast.walk(s) if self.oracle_mode else []:
                     if isinstance(c, ast.Call) and isinstance(c.func, ast.Attribute):
                         if c.func.attr == "analyze" and isinstance(c.func.value, ast.Name):
@@ -1555,7 +1579,7 @@ class Translator:
                 elif isinstance(s, ast.Expr) and isinstance(s.value, ast.Call):
                     c = s.value
                     if isinstance(c.func, ast.Attribute) and isinstance(c.func.value, ast.Name):
-                        if c.func.attr in ("append", "reverse"):
+                        if c.func.attr in ("append", "reverse", "add"):
                             add(c.func.value.id)
                         else:   # self.f(.., delta): the callee updates the dict it is given
                             for a in c.args:
@@ -1634,7 +1658,9 @@ class Translator:
             return cont(env)
         if isinstance(s, ast.Return):
             if fn.loop_depth:
-                fail(s, "return inside a loop")
+                if ctx.get("return") is None or s.value is None:
+                    fail(s, "return inside a for loop")
+                return ctx["return"](env, s)
             return self.do_return(fn, s.value, env, s)
         if isinstance(s, ast.Assign):
             if len(s.targets) != 1:
@@ -1720,6 +1746,18 @@ class Translator:
             fail(node, f"{name} is rebound while delta refers to the list it named")
 
     def assign(self, fn, target, value, env, cont, node):
+        if isinstance(target, ast.Name) and isinstance(value, ast.Call) and isinstance(value.func, ast.Attribute) \
+                and value.func.attr == "pop" and not value.args and not value.keywords \
+                and isinstance(value.func.value, ast.Name) and env.has(value.func.value.id):
+            # x = q.pop(): the LAST element; IndexError on an empty list
+            qn = value.func.value.id
+            qc, qty, qfresh = env.get(qn)
+            if not (isinstance(qty, tuple) and qty[0] == "list") or not qfresh or target.id == qn:
+                fail(node, "pop() from something that is not a list created here")
+            self.check_not_aliased(fn, target.id, node)
+            c = self.cname(target.id)
+            env2 = env.set(target.id, c, qty[1]).set(qn, qc, qty, True)
+            return ("bind", pattern([c, qc]), app("py_pop", qc), cont(env2))
         if self.oracle_mode:
             r = self.oracle_assign(fn, target, value, env, cont, node)
             if r is not None:
@@ -1949,6 +1987,15 @@ class Translator:
             v = self.pure(fn, c.args[0], env, ty[1][1] if known(ty[1][1]) else None)
             nty = O(L(unify(ty[1][1], v.ty, c)))
             return wrap(v.pre, ("bind", coq, app("py_opt_append", coq, v.term), cont(env.set(name, coq, nty, True))))
+        if isinstance(f, ast.Attribute) and f.attr == "add" and isinstance(f.value, ast.Name) and env.has(f.value.id) \
+                and isinstance(env.get(f.value.id)[1], tuple) and env.get(f.value.id)[1][0] == "set" and len(c.args) == 1:
+            name = f.value.id
+            coq, ty, fresh = env.get(name)
+            if not fresh or c.keywords:
+                fail(c, "add to a set this function did not create")
+            v = self.pure(fn, c.args[0], env)
+            nty = ("set", unify(ty[1], v.ty, c))
+            return wrap(v.pre, ("let", coq, f"{opd(v.term)} :: {opd(coq)}", cont(env.set(name, coq, nty, True))))
         if isinstance(f, ast.Attribute) and f.attr == "reverse" and isinstance(f.value, ast.Name) and env.has(f.value.id) \
                 and not c.args and not c.keywords:
             name = f.value.id
@@ -2135,7 +2182,13 @@ class Translator:
 
         def brk(e):
             return ("ret", ("BREAK", e))
-        body = self.block(fn, s.body, env, k, dict(ctx, **{"continue": k, "break": brk}))
+        has_return = any(isinstance(n, ast.Return) for b in s.body for n in ast.walk(b))
+
+        def rtn(e, node):
+            v = self.pure(fn, node.value, e, fn.ret_ty)
+            unify(v.ty, fn.ret_ty, node)
+            return wrap(v.pre, ("ret", ("RETURN", v.term)))
+        body = self.block(fn, s.body, env, k, dict(ctx, **{"continue": k, "break": brk, "return": rtn}))
         fn.branch_depth = saved_bd
         fn.loop_depth -= 1
         env_after = env
@@ -2152,17 +2205,26 @@ class Translator:
             if l[0] == "tailrec" and isinstance(l[1], tuple):
                 return ("tailrec", call(l[1][1]))
             if l[0] == "ret" and isinstance(l[1], tuple) and l[1][0] == "BREAK":
-                return ("ret", tuple_term([l[1][1].get(n)[0] for n in state]))
+                t = tuple_term([l[1][1].get(n)[0] for n in state])
+                return ("ret", app("inl", t) if has_return else t)
+            if l[0] == "ret" and isinstance(l[1], tuple) and l[1][0] == "RETURN":
+                return ("ret", app("inr", l[1][1]))
             return l
         body = map_tree(body, leaf, rhs=True)
         st_term = tuple_term([env.get(n)[0] for n in state])
-        tree = purify(wrap(c.pre, ("if", self.truth(c, s.test), body, ("ret", st_term))))
+        tree = purify(wrap(c.pre, ("if", self.truth(c, s.test), body, ("ret", app("inl", st_term) if has_return else st_term))))
         st_ty = coq_type(T(*[env.get(n)[1] for n in state]) if len(state) > 1 else env.get(state[0])[1], False)
+        if has_return:
+            st_ty = f"({st_ty} + {coq_type(fn.ret_ty, False)})"
         params = "".join(f" ({env.get(n)[0]} : {coq_type(env.get(n)[1])})" for n in free + state)
         text = (f"Fixpoint {lname} (fuel : nat){params} {{struct fuel}} : res {st_ty} :=\n"
                 f"  match fuel with\n  | O => Crash OutOfFuel\n  | S fuel' =>\n{show(tree, 4, True)}\n  end.")
         fn.aux.append(text)
         callterm = app(lname, app("Z.to_nat", fuel.term), *([env.get(n)[0] for n in free] + [env.get(n)[0] for n in state]))
+        if has_return:
+            r, v = fn.temp(), fn.temp()
+            pat = st_term if len(state) > 1 else env.get(state[0])[0]
+            return ("bind", r, callterm, ("matchsum", r, pat, cont(env), v, ("ret", v)))
         return ("bind", pattern([env.get(n)[0] for n in state]), callterm, cont(env))
 
     @staticmethod
@@ -2204,7 +2266,7 @@ class Translator:
         fn.loop_depth += 1
         saved_bd = fn.branch_depth
         fn.branch_depth = 0
-        body = self.block(fn, s.body, env_body, k, dict(ctx, **{"continue": k, "break": None}))
+        body = self.block(fn, s.body, env_body, k, dict(ctx, **{"continue": k, "break": None, "return": None}))
         fn.branch_depth = saved_bd
         fn.loop_depth -= 1
         # state types: what the body makes of them (an empty list gets its element type from the appends)
@@ -2595,6 +2657,9 @@ class Translator:
 
     # ------------------------------------------------------------------ driver
     def run(self):
+        # Position._walk: every popped square is already seen, or is marked and rejected, or is a road square expanded for
+        # the first and only time (four pushes): 5 * size^2 + len(seeds) + 1 iterations suffice (proofs/RoadPyProofs.v)
+        self.while_fuel[("game", "Position._walk", 1)] = "5 * self.size * self.size + len(seeds) + 1"
         self.coq_names |= {t[2] for t in TARGETS} | {"DIRECTIONS"} | \
             {f"{e}_value" for e in ENUMS} | {f"{e}_of_value" for e in ENUMS}
         self.check_pinned()
